@@ -158,14 +158,45 @@ pub fn run(args: &[&str]) -> String {
     ["did", h] => {
       let Some(s) = arg(h) else { return "bad-request".into() };
       let s2 = s.clone();
+      // every way of constructing a CoreDID from this string is held to the property too
+      let paths = |parsed: Option<&CoreDID>| -> Option<String> {
+        let js = serde_json::to_string(&s).unwrap_or_default();
+        let (sa, sb, sc) = (s.clone(), s.clone(), s.clone());
+        let rs: [(&str, std::thread::Result<Option<CoreDID>>); 4] = [
+          ("FromStr", std::panic::catch_unwind(move || sa.parse::<CoreDID>().ok())),
+          ("TryFrom<&str>", std::panic::catch_unwind(move || CoreDID::try_from(sb.as_str()).ok())),
+          ("TryFrom<String>", std::panic::catch_unwind(move || CoreDID::try_from(sc).ok())),
+          ("Deserialize", std::panic::catch_unwind(move || serde_json::from_str::<CoreDID>(&js).ok())),
+        ];
+        for (name, r) in rs {
+          match r {
+            Err(_) => return Some(format!("construction-paths-differ:{} panics on {:?}", name, s)),
+            // what another construction path accepts must itself satisfy the property (verbatim string form, W3C
+            // syntax, no path / query / fragment) and be the value `parse` yields when both accept; whether a path
+            // accepts at all is not constrained by the property
+            Ok(Some(v)) => {
+              if let Some(f) = did_oracle(&s, &v) {
+                return Some(format!("{} (value accepted by {})", f, name));
+              }
+              if let Some(p) = parsed {
+                if *p != v || p.to_string() != v.to_string() {
+                  return Some(format!("construction-paths-differ:{} gives {:?} for {:?}, parse gives {:?}", name, v.to_string(), s, p.to_string()));
+                }
+              }
+            }
+            Ok(None) => {}
+          }
+        }
+        None
+      };
       match std::panic::catch_unwind(move || CoreDID::parse(&s2)) {
         Err(_) => "panic\t#FAIL:panic:CoreDID::parse panicked".into(),
-        Ok(Err(_)) => "err".into(),
+        Ok(Err(_)) => with("err".into(), paths(None)),
         Ok(Ok(d)) => {
           let o = std::panic::catch_unwind(|| (d.method().to_string(), d.method_id().to_string()));
           match o {
             Err(_) => "ok:panic\t#FAIL:panic:accessor panicked on an accepted CoreDID".into(),
-            Ok((m, i)) => with(format!("ok:{}:{}", hex(m.as_bytes()), hex(i.as_bytes())), did_oracle(&s, &d)),
+            Ok((m, i)) => with(format!("ok:{}:{}", hex(m.as_bytes()), hex(i.as_bytes())), did_oracle(&s, &d).or_else(|| paths(Some(&d)))),
           }
         }
       }
@@ -173,9 +204,38 @@ pub fn run(args: &[&str]) -> String {
     ["url", h] => {
       let Some(s) = arg(h) else { return "bad-request".into() };
       let s2 = s.clone();
+      let upaths = |parsed: Option<&DIDUrl>| -> Option<String> {
+        let js = serde_json::to_string(&s).unwrap_or_default();
+        let (sa, sc) = (s.clone(), s.clone());
+        let rs: [(&str, std::thread::Result<Option<DIDUrl>>); 3] = [
+          ("FromStr", std::panic::catch_unwind(move || sa.parse::<DIDUrl>().ok())),
+          ("TryFrom<String>", std::panic::catch_unwind(move || DIDUrl::try_from(sc).ok())),
+          ("Deserialize", std::panic::catch_unwind(move || serde_json::from_str::<DIDUrl>(&js).ok())),
+        ];
+        for (name, r) in rs {
+          match r {
+            Err(_) => return Some(format!("construction-paths-differ:{} panics on {:?}", name, s)),
+            // what another construction path accepts must itself satisfy the property (verbatim string form, W3C
+            // syntax, no path / query / fragment) and be the value `parse` yields when both accept; whether a path
+            // accepts at all is not constrained by the property
+            Ok(Some(v)) => {
+              if let Some(f) = url_oracle(&v, name) {
+                return Some(format!("{} (value accepted by {})", f, name));
+              }
+              if let Some(p) = parsed {
+                if *p != v || p.to_string() != v.to_string() {
+                  return Some(format!("construction-paths-differ:{} gives {:?} for {:?}, parse gives {:?}", name, v.to_string(), s, p.to_string()));
+                }
+              }
+            }
+            Ok(None) => {}
+          }
+        }
+        None
+      };
       match std::panic::catch_unwind(move || DIDUrl::parse(&s2)) {
         Err(_) => "panic\t#FAIL:panic:DIDUrl::parse panicked".into(),
-        Ok(Err(_)) => "err".into(),
+        Ok(Err(_)) => with("err".into(), upaths(None)),
         Ok(Ok(u)) => {
           let f = url_oracle(&u, "parse").or_else(|| {
             if u.to_string() != s {
@@ -203,6 +263,7 @@ pub fn run(args: &[&str]) -> String {
               None
             }
           });
+          let f = f.or_else(|| upaths(Some(&u)));
           with(show_url(&u), f)
         }
       }
